@@ -124,6 +124,8 @@ type Endpoint struct {
 	Query  []QueryParam
 	// subscribe
 	Source []string
+	// rest: Sibling = written as a further method inside the path block of the previous endpoint (same path)
+	Sibling bool
 }
 
 type App struct {
@@ -422,8 +424,11 @@ func (r *renderer) endpoint(a *App, e *Endpoint) {
 		r.mark(ek)
 		r.w(AppNameSrc(e.Source) + " -> " + EscName(e.Name) + renderAttrs(e.Attrs) + ":\n")
 	case "rest":
-		// one nesting level per path segment
+		// one nesting level per path segment (a sibling method reuses the block of the endpoint before it)
 		for i, s := range e.Path {
+			if e.Sibling {
+				break
+			}
 			r.ind(1 + i)
 			r.w("/")
 			if s.Var != "" {
